@@ -114,7 +114,7 @@ class Harness(object):
             raised = e
         if raised is not None:
             self._on_unexpected_raise(op, raised, before, n_tx)
-        self._apply_fills(n_tx)
+        self._apply_fills()
         self._invariants(op)
 
     def _on_unexpected_raise(self, op, e, before, n_tx):
@@ -150,6 +150,7 @@ class Harness(object):
         self.seen_kinds = set()
         self.flags = set()
         self._closed = {}
+        self._applied = 0
         self._invariants(['init'])
 
     # ------------------------------------------------------------------------------------------ valid ops
@@ -264,6 +265,90 @@ class Harness(object):
             ql = [o.order_id for o in self.b.open_orders[pid].queue]
             if ql != [oid for oid, _, _ in self.pend[pid]]:
                 raise Violation('pending queue of %s is %s, expected %s' % (pid, ql, [x[0] for x in self.pend[pid]]))
+
+    def op_exec(self, op, before):
+        """A batch of orders through the real ExecutionHandler (submit + broker.update(dt) per order)."""
+        _, pi, specs, submit = op
+        pid = self._pid(pi)
+        if pid is None:
+            return
+        from qstrader.execution.execution_handler import ExecutionHandler
+        from qstrader.execution.execution_algo.market_order import MarketOrderExecutionAlgorithm
+        dt = self.b.current_dt
+        for p in self.b.portfolios.values():
+            if p.current_dt > dt:
+                return
+        orders = []
+        for ai, n in specs:
+            orders.append(self.q.Order(dt, self.assets[ai % len(self.assets)], int(n) or 1))
+        eh = ExecutionHandler(self.b, pid, None, submit_orders=submit, execution_algo=MarketOrderExecutionAlgorithm(),
+                              data_handler=self.dh)
+        held = {p_: list(self.b.portfolios[p_].pos_handler.positions.keys()) for p_ in self.pids}
+        pend_before = {p_: list(self.pend[p_]) for p_ in self.pids}
+        is_open = cal.is_open(dt)
+        n_tx = len(self.txlog)
+        self.valid_ops += 1
+        self.flags.add('execution_handler')
+        eh(dt, orders)
+        if not submit:
+            if self.mode == 'C04':
+                d = diff_snap(strip_marks(before), strip_marks(snapshot(self.b)))
+                if d or len(self.txlog) != n_tx:
+                    raise Violation('execution handler with submit_orders=False changed state: %s' % d)
+            return
+        for o in orders:
+            self.submitted[o.order_id] = (pid, o.asset, o.quantity)
+        # the handler updates the broker after every single order: while the exchange is open each order (and
+        # anything already pending) fills at once in list order; while closed everything stays queued
+        new = self.txlog[n_tx:]
+
+        def mark_all():
+            for p_ in self.pids:
+                for a_, n_ in self.net[p_].items():
+                    if n_ != 0:
+                        bq = self.dh.q[a_]
+                        self.last[p_][a_] = F((bq[0] + bq[1]) / 2.0)
+        if not is_open or not orders:
+            mark_all()
+        else:
+            # one broker update per order: marks of everything held, then that update's fills
+            n_first = sum(len(v) for v in pend_before.values()) + 1
+            sizes = [n_first] + [1] * (len(orders) - 1)
+            pos = n_tx
+            for k in sizes:
+                mark_all()
+                pos = min(pos + k, len(self.txlog))
+                self._apply_fills(pos)
+        if is_open:
+            first_batch = sorted(pend_before[pid] + [(orders[0].order_id, orders[0].asset, orders[0].quantity)],
+                                 key=lambda x: 0 if x[2] < 0 else 1) if orders else []
+            exp = first_batch + [(o.order_id, o.asset, o.quantity) for o in orders[1:]]
+            got = [(t.order_id, t.asset, t.quantity) for p_, t in new if p_ == pid]
+            if self.mode == 'C04':
+                if got != exp:
+                    raise Violation('execution handler at %s (open): filled %s, expected %s' % (
+                        dt, [(x[1], x[2]) for x in got], [(x[1], x[2]) for x in exp]))
+                for p_ in self.pids:
+                    if p_ != pid:
+                        g2 = [(t.order_id, t.asset, t.quantity) for pp, t in new if pp == p_]
+                        e2 = sorted(pend_before[p_], key=lambda x: 0 if x[2] < 0 else 1)
+                        if g2 != e2:
+                            raise Violation('execution handler at %s: other portfolio %s filled %s, pending were %s' % (
+                                dt, p_, g2, e2))
+                    if not self.b.open_orders[p_].empty():
+                        raise Violation('orders still queued for %s after open-hours execution' % p_)
+                if any(t.dt != dt for _, t in new):
+                    raise Violation('execution handler fill not stamped %s' % dt)
+        else:
+            self.pend[pid] += [(o.order_id, o.asset, o.quantity) for o in orders]
+            if self.mode == 'C04':
+                if new:
+                    raise Violation('execution handler filled %s at %s outside exchange hours' % (
+                        [(t.asset, t.quantity) for _, t in new], dt))
+                ql = [o.order_id for o in self.b.open_orders[pid].queue]
+                if ql != [x[0] for x in self.pend[pid]]:
+                    raise Violation('queue of %s after closed-hours execution holds %d orders, expected %d' % (
+                        pid, len(ql), len(self.pend[pid])))
 
     def op_quote(self, op, before):
         _, ai, bid, ask = op
@@ -424,6 +509,7 @@ class Harness(object):
         except Exception as e:                                   # noqa
             raised = e
         del self.txlog[n_tx:]
+        self._applied = min(self._applied, len(self.txlog))
         if raised is None:
             raise Violation('invalid request %s (%s, x=%r) was silently accepted' % (kind, pid, x))
         after = snapshot(b)
@@ -440,9 +526,16 @@ class Harness(object):
             self.flags.add('refusal_after_fill_with_pending')
 
     # ------------------------------------------------------------------------------------------ fills
-    def _apply_fills(self, n_tx):
-        """Apply the transactions tapped during this step to the model (price, qty, commission as tapped)."""
-        for pid, txn in self.txlog[n_tx:]:
+    def _apply_fills(self, upto=None):
+        """Apply the not yet applied tapped transactions to the model (price, qty, commission as tapped)."""
+        lo = self._applied
+        hi = len(self.txlog) if upto is None else upto
+        self._applied = hi
+        for tapped_pid, txn in self.txlog[lo:hi]:
+            # a fill belongs to the portfolio its order was submitted to
+            pid = self.submitted.get(txn.order_id, (tapped_pid,))[0]
+            if pid != tapped_pid:
+                self.count('fills_booked_elsewhere')
             cost = F(float(txn.price)) * int(txn.quantity) + F(float(txn.commission))
             self.cash[pid] -= cost
             self.hist[pid].append(('asset_transaction', -cost, self.cash[pid]))
@@ -821,6 +914,13 @@ def make_machine(mode, rec, part):
         @rule(dd=st.sampled_from([0, 0, 1, 3]), tod=st.sampled_from(OPEN_TODS))
         def clock_open(self, dd, tod):
             self._do(['clock', dd, list(tod)])
+
+        @precondition(lambda self: self.h is not None and self.h.pids)
+        @rule(p=st.integers(0, 3), specs=st.lists(st.tuples(st.integers(0, 4), st.sampled_from([1, -1, 2, -3, 10, -25, 100])).map(list),
+                                                  min_size=1, max_size=4),
+              submit=st.sampled_from([True, True, True, False]))
+        def exec_batch(self, p, specs, submit):
+            self._do(['exec', p, specs, submit])
 
         @rule(a=st.integers(0, 4), qt=quote_st())
         def quote(self, a, qt):
